@@ -252,10 +252,10 @@ def canonical_renaming(term, max_leaves=3000):
     return best[1], leaves[0]
 
 
-def certify_term(term, max_leaves=3000):
-    """full certificate for one term: delta eliminations, then canonical alpha-renaming.
-    returns (steps, info)"""
-    t2, steps = eliminate_deltas(term)
+def certify_term(term, max_leaves=3000, elim=True):
+    """full certificate for one term: delta eliminations (unless elim=False), then canonical
+    alpha-renaming.  returns (steps, info)"""
+    t2, steps = eliminate_deltas(term) if elim else (term, [])
     info = {"elims": len(steps), "leaves": 0, "budget": False}
     # a delta between disjoint classes or an antisymmetric tensor with a repeated index makes the
     # term zero; the renaming is then irrelevant
@@ -271,11 +271,11 @@ def certify_term(term, max_leaves=3000):
     return steps, info
 
 
-def certify_expr(expr, max_leaves=3000):
+def certify_expr(expr, max_leaves=3000, elim=True):
     certs = []
     stats = {"elims": 0, "leaves": 0, "budget": 0, "max_leaves": 0}
     for t in expr:
-        s, info = certify_term(t, max_leaves)
+        s, info = certify_term(t, max_leaves, elim)
         certs.append(s)
         stats["elims"] += info["elims"]
         stats["leaves"] += info["leaves"]
